@@ -111,6 +111,18 @@ CLAIMS = {
          "its metas removed; every non-coupled impl's real token stream must be identical across the twins, model agrees.",
          COMMON_NOTE + "the claim 'handlers read only their own builder's result' is carried by the model's handler signatures (each takes only its own scanned attributes) and tied by the twin correspondence, not by a source-level data-flow analysis.",
          "Lean 4 theorems over scanner model + twin-definition correspondence (B3)"),
+ "C18": ("(b) over the table regenerated from /repo/src + Cargo.toml (Generated/Features.lean: every #[cfg] on modules, items, statements, "
+         "match arms, variants; every reference to a crate module / gated re-export / `Trait::X` variant / cfg'd local resolved to (context "
+         "condition, provided condition)): gates_closed_all (in all 2^12 configurations every compiled reference points to something compiled; "
+         "decide +kernel), gated_modules_used_all, variants_/from_path_/dispatch_gated_by_own_feature (the three per-trait tables are gated by "
+         "exactly the trait's own feature, in the model's dispatch order), features_independent, compile_error_iff_no_feature. (a) over the "
+         "expansion model: expand_subset_eq_full (no disabled trait named anywhere => expand F d = expand All d; congruence through every "
+         "handler), disabled_trait_first_is_unsupported, disabled_trait_never_accepted, metaOK_iff, dispatch_filter. Tie: rustc --emit=metadata "
+         "of /repo/src/lib.rs per feature subset (quick 151, thorough all 4096; 0 errors, 0 warnings; empty set = the explicit compile_error); "
+         "for 6 (40) subsets the real proc-macro is linked and its expansions (rustc -Zunpretty=expanded) of a pool naming only enabled traits "
+         "are compared with the all-features build; disabled traits must be refused with `unsupported trait` listing exactly the enabled set.",
+         COMMON_NOTE + "rustc's name resolution and lints are observed (all subsets in the thorough tier), not modelled beyond the gate graph; the resolver in the translator (harness/vtool/src/gates.rs) is trusted and fails closed on unresolvable crate paths; cargo's feature unification is emulated by the closure over Cargo.toml's feature table.",
+         "Lean 4 theorems (decide +kernel over all cfg configurations of the regenerated gate table; congruence proof over the expansion model) + per-subset rustc builds and subset-vs-full expansion comparison"),
  "C11": ("Theorems auto_preds_shape / auto_preds_only_collected (automatic mode appends one `FieldTy: Trait` per collected type plus the "
          "supertraits on Self, nothing else), struct_body_delegates_exactly + delegated_types_and_operands (the collected types are exactly the "
          "fields on which the generated PartialEq body calls the trait's own method — two independently written parts linked), "
